@@ -24,7 +24,7 @@ pub fn run(tier: Tier) -> i32 {
     let mut ins = Vec::new();
     for it in &items {
         for k in ALL_OPTS {
-            if tier == Tier::Quick && !matches!(k, corpus::OptKind::Header | corpus::OptKind::ProvidedSome | corpus::OptKind::ProvidedNone) {
+            if tier == Tier::Quick && matches!(k, corpus::OptKind::HeaderProvidedNone) && it.name.starts_with("long-symbols") {
                 continue;
             }
             if let Some(b) = it.build(k) {
